@@ -217,7 +217,13 @@ func vL2(mon int) {
 	vCmd(cs, "RPUSH", "k3", "x1", "x2")
 	vCmd(cs, "SADD", "k4", "m1", "m3")
 	// the target key
-	kind := vChoice("kind", 5)
+	// for the keyspace monitors the target also comes as a one-element list,
+	// hash and set: whatever removes that element must remove the key
+	nk := 5
+	if mon&monG34 != 0 {
+		nk = 8
+	}
+	kind := vChoice("kind", nk)
 	switch kind {
 	case preString:
 		vCmd(cs, "SET", "k", vStringN("kv", 1))
@@ -227,6 +233,12 @@ func vL2(mon int) {
 		vCmd(cs, "HSET", "k", "f1", vStringN("kv", 1), "f2", "7")
 	case preSet:
 		vCmd(cs, "SADD", "k", "m1", "m2")
+	case 5:
+		vCmd(cs, "RPUSH", "k", "e1")
+	case 6:
+		vCmd(cs, "HSET", "k", "f1", "7")
+	case 7:
+		vCmd(cs, "SADD", "k", "m1")
 	}
 	if kind != preAbsent && vBool("ttl") {
 		vCmd(cs, "EXPIRE", "k", "100000")
